@@ -202,6 +202,8 @@ type codegen struct {
 	phase4          bool // implies phase3
 	phase5          bool // fifth part (code_iface.go), implies phase4
 	white5Set       map[fnKey]bool
+	lendCache       map[*ast.FuncDecl]map[string]*lendCand // code_lend.go
+	viewCache       map[*ast.FuncDecl]map[string]*viewInfo // code_lend.go
 	ifaces          map[string]*ifaceInfo
 	ifaceDecls      map[string]*ast.InterfaceType
 	white4Set       map[fnKey]bool
